@@ -106,6 +106,74 @@ def key_chain(ctx, res):
     res.oblige(ok, "metaclass:observe-state", HT,
                "the observer state is not created with (observe="
                "trait.observe, property_name=name, cached=trait.cached)")
+    # 3b. the state is rebuilt for *every* observed property of the class
+    # being defined: whether it is built depends on the (final, possibly
+    # migrated) trait alone, never on what a base class already recorded
+    upd = repo.func(HT, "update_traits_class_dict")
+    par = {}
+    for p_ in ast.walk(upd):
+        for c_ in ast.iter_child_nodes(p_):
+            par[id(c_)] = p_
+    for c in calls:
+        node, guards, loop = c, [], None
+        while id(node) in par:
+            up = par[id(node)]
+            if isinstance(up, ast.If):
+                guards.append((up.test, node in up.body))
+            if isinstance(up, (ast.For, ast.While)):
+                loop = up
+                break
+            node = up
+        if loop is None:
+            continue
+        # earlier statements of the loop body that can skip the iteration
+        top = node
+        for st in loop.body:
+            if st is top:
+                break
+            for i in ast.walk(st):
+                if isinstance(i, ast.If) and any(
+                        isinstance(x, (ast.Continue, ast.Break, ast.Return))
+                        for b in i.body + i.orelse for x in ast.walk(b)):
+                    guards.append((i.test, None))
+        loopvars = names_in(loop.target)
+        tvar = [k.value for k in c.keywords if k.arg == "cached"]
+        tname = tvar[0].value.id if tvar and isinstance(
+            tvar[0], ast.Attribute) and isinstance(tvar[0].value, ast.Name) \
+            else "trait"
+        foreign = []
+        for test, _ in guards:
+            for n in ast.walk(test):
+                if isinstance(n, ast.Name) and n.id != tname \
+                        and n.id not in ("isinstance", "str", "None"):
+                    foreign.append((n.id, norm(test)))
+        res.instance("metaclass:observe-state-guard", mod.loc(c),
+                     guards=[norm(t) for t, _ in guards])
+        res.oblige(not foreign, "metaclass:observe-state-guard", mod.loc(c),
+                   f"whether the dependency observer of a property is "
+                   f"(re)built depends on `{foreign[0][0] if foreign else ''}`"
+                   f" (in `{foreign[0][1][:70] if foreign else ''}`), not on "
+                   f"the trait alone: a property whose definition changed in "
+                   f"a subclass (getter overridden with @cached_property) "
+                   f"keeps the base class's handler, which closes over the "
+                   f"old `cached` flag and never pops the cache")
+        store = par.get(id(c))
+        while store is not None and not isinstance(store, ast.stmt):
+            store = par.get(id(store))
+        nxt = None
+        if store is not None:
+            body = par[id(store)].body if hasattr(par[id(store)], "body") \
+                else []
+            if store in body and body.index(store) + 1 < len(body):
+                nxt = body[body.index(store) + 1]
+        sv = store.targets[0].id if isinstance(store, ast.Assign) \
+            and isinstance(store.targets[0], ast.Name) else None
+        ok = nxt is not None and isinstance(nxt, ast.Assign) \
+            and norm(nxt.targets[0]) == "observers[name]" \
+            and sv is not None and sv in names_in(nxt.value)
+        res.oblige(ok, "metaclass:observe-state-stored", mod.loc(c),
+                   "the freshly built observer state is not stored as "
+                   "observers[name] (replacing the inherited one)")
     # 4. the handler pops TraitsCache + property_name
     fn = repo.func(HT, "_create_property_observe_state")
     h = [f for f in ast.walk(fn) if isinstance(f, ast.FunctionDef)
@@ -249,14 +317,15 @@ def _check_order(res, key, seq, loc, require_state=True):
                f"lifecycle steps run as {names}; the creation sequence is "
                f"{SKELETON} (observers/listeners must be installed before "
                f"state is assigned, post-init ones after)")
-    need = set(MANDATORY) | ({"state"} if require_state else set())
+    need = set(MANDATORY) | {"init-listeners", "post-listeners"} \
+        | ({"state"} if require_state else set())
     res.oblige(need <= set(names), key + ":complete", loc,
                f"lifecycle misses {sorted(need - set(names))}")
     res.oblige(len(names) == len(set(names)), key + ":once", loc,
                f"a lifecycle step is repeated: {names}")
 
 
-@rule("C14.lifecycle", ["C14", "C12"],
+@rule("C14.lifecycle", ["C14", "C12", "C16"],
       "construction (C), unpickling and cloning run the same ordered "
       "lifecycle: init listeners/observers, state, post-init, traits_init, "
       "inited")
@@ -293,6 +362,16 @@ def lifecycle(ctx, res):
                    "has_traits_init:sequence", f"{CREL}:{p.lines[-1]}",
                    f"a successful construction path runs {names}; expected a "
                    f"subsequence of {SKELETON} containing {sorted(MANDATORY)}",
+                   [f"{CREL}:{l}" for l in dict.fromkeys(p.lines) if l])
+        # the two halves of the legacy-listener set-up are guarded by the
+        # same class-level flag: a path that runs one runs the other
+        res.oblige(("init-listeners" in names) == ("post-listeners" in names),
+                   "has_traits_init:listener-halves", f"{CREL}:{p.lines[-1]}",
+                   f"a successful construction path runs {names}: "
+                   f"_init_trait_listeners and _post_init_trait_listeners "
+                   f"must run together (post_init=True handlers of "
+                   f"on_trait_change would never be hooked up / be hooked up "
+                   f"without their pre-init half)",
                    [f"{CREL}:{l}" for l in dict.fromkeys(p.lines) if l])
     res.instance("has_traits_init", facts.loc(facts.func("has_traits_init")),
                  successful_paths=n_ok, fullest=longest)
@@ -401,6 +480,47 @@ def through_traits(ctx, res):
                    == "is_none" for c in gets), "__getstate__:transient",
                mod.loc(fn), "__getstate__ does not filter out transient "
                "traits (transient=is_none)")
+    # __setstate__ replays the state in dictionary order through trait_set:
+    # locally overridden delegate values must come after the ordinary traits
+    # (the delegate object they are assigned through is one of those)
+    def _idx(pred):
+        for i, st in enumerate(fn.body):
+            if any(pred(n) for n in ast.walk(st)):
+                return i
+        return None
+    i_get = _idx(lambda n: is_self_call(n, "trait_get"))
+    i_del = _idx(lambda n: isinstance(n, ast.Call) and any(
+        k.arg == "type" and norm(k.value) == "'delegate'"
+        for k in n.keywords))
+    if i_get is None or i_del is None:
+        raise AnalysisError("__getstate__: trait_get / delegate sources "
+                            "not found")
+    base = fn.body[i_get]
+    rvar = base.targets[0].id if isinstance(base, ast.Assign) and isinstance(
+        base.targets[0], ast.Name) else None
+    dst = fn.body[i_del]
+    merged = rvar is not None and any(
+        (isinstance(n, ast.Call) and norm(n.func) == f"{rvar}.update")
+        or (isinstance(n, ast.Subscript) and isinstance(n.ctx, ast.Store)
+            and norm(n.value) == rvar) for n in ast.walk(dst))
+    if i_get == i_del:
+        # one expression ({**a, **b} / dict(a, **b)): insertion order is
+        # source order
+        def _pos(pred):
+            return min((n.lineno, n.col_offset) for n in ast.walk(base)
+                       if pred(n))
+        merged = _pos(lambda n: is_self_call(n, "trait_get")) < _pos(
+            lambda n: isinstance(n, ast.Call) and any(
+                k.arg == "type" and norm(k.value) == "'delegate'"
+                for k in n.keywords))
+        i_get = i_del - 1 if merged else i_del
+    res.oblige(i_get < i_del and merged, "__getstate__:delegates-last",
+               mod.loc(dst),
+               "the state dictionary lists locally overridden delegate "
+               "values before the ordinary traits: __setstate__ replays it in "
+               "order, so a PrototypedFrom override is assigned before the "
+               "Instance trait holding its prototype and unpickling raises "
+               "DelegationError")
     fn = repo.func(HT, "HasTraits.__reduce_ex__")
     res.oblige(any(is_self_call(c, "__getstate__") for c in ast.walk(fn)),
                "__reduce_ex__:getstate", mod.loc(fn),
